@@ -1812,10 +1812,6 @@ int cgi_read_sol(int in_link, double parent_id, int *nsols, cgns_sol **sol)
      /* Rind Planes */
         if (cgi_read_rind(sol[0][s].id, &sol[0][s].rind_planes)) return CG_ERROR;
 
-     /* Determine data size */
-        if (cgi_datasize(Idim, CurrentDim, sol[0][s].location,
-                sol[0][s].rind_planes, DataSize)) return CG_ERROR;
-
      /* check for PointList/PointRange */
         if (cgi_read_one_ptset(linked, sol[0][s].id,
                 &sol[0][s].ptset)) return CG_ERROR;
@@ -1827,6 +1823,10 @@ int cgi_read_sol(int in_link, double parent_id, int *nsols, cgns_sol **sol)
             }
             DataCount = sol[0][s].ptset->size_of_patch;
         }
+     /* Determine data size: of the whole zone only without a point set (a
+        point set may sit at a location that has no zone-wide data size) */
+        else if (cgi_datasize(Idim, CurrentDim, sol[0][s].location,
+                sol[0][s].rind_planes, DataSize)) return CG_ERROR;
 
      /* DataArray_t */
         if (cgi_get_nodes(sol[0][s].id, "DataArray_t", &sol[0][s].nfields,
@@ -4892,10 +4892,6 @@ int cgi_read_discrete(int in_link, double parent_id, int *ndiscrete,
         if (cgi_read_rind(discrete[0][n].id, &discrete[0][n].rind_planes))
             return CG_ERROR;
 
-     /* Determine data size */
-        if (cgi_datasize(Idim, CurrentDim, discrete[0][n].location,
-            discrete[0][n].rind_planes, DataSize)) return CG_ERROR;
-
      /* check for PointList/PointRange */
         if (cgi_read_one_ptset(linked, discrete[0][n].id,
                 &discrete[0][n].ptset)) return CG_ERROR;
@@ -4907,6 +4903,9 @@ int cgi_read_discrete(int in_link, double parent_id, int *ndiscrete,
             }
             DataCount = discrete[0][n].ptset->size_of_patch;
         }
+     /* Determine data size: of the whole zone only without a point set */
+        else if (cgi_datasize(Idim, CurrentDim, discrete[0][n].location,
+            discrete[0][n].rind_planes, DataSize)) return CG_ERROR;
 
      /* DataArray_t */
         if (cgi_get_nodes(discrete[0][n].id, "DataArray_t",
